@@ -15,12 +15,12 @@ SITES = {
     'get_root_closer': ['none'],
     'prepare_closer': ['none', 'finished_callback'],
     'prepare_with': ['none', 'body', 'finished_callback', 'root_factory'],
-    'cfg_commit': ['none', 'action'],
-    'cfg_action': ['none', 'callable'],
+    'cfg_commit': ['none', 'action', 'conflict'],
+    'cfg_action': ['none', 'callable', 'introspectable'],
     'cfg_include': ['none', 'callable'],
-    'cfg_make_wsgi_app': ['none', 'subscriber', 'action'],
+    'cfg_make_wsgi_app': ['none', 'subscriber', 'action', 'tween_factory', 'conflict'],
     'cfg_route_prefix': ['none', 'body'],
-    'cfg_with': ['none', 'body', 'action'],
+    'cfg_with': ['none', 'body', 'action', 'conflict'],
     'exception_view': ['none', 'view', 'view_base', 'mismatch', 'noview'],
     'exception_view_reraise': ['none', 'view', 'view_base', 'mismatch', 'noview'],
     'subrequest': ['none', 'view'],
@@ -38,6 +38,82 @@ class BaseBoom(BaseException):
 
 
 _INNER = []
+_INJECT = [None]      # None | -1 (record only) | k (raise at the k-th injection point)
+_EVENTS = []
+_TARGETS = {}
+
+
+class InjectedFault(Exception):
+    pass
+
+
+def _targets():
+    """{rel file: {qualname: set(lines)}}: first lines of the statements of the translated functions that contain
+    an opaque (may-raise) call -- derived from the same translation that produces the skeletons."""
+    if not _TARGETS:
+        import os
+        import pyramid
+        from harness.c13 import translate as TR
+        src = os.path.dirname(os.path.dirname(os.path.abspath(pyramid.__file__)))
+        for (rel, qual), lines in TR.translate(src)['opaque_lines'].items():
+            _TARGETS.setdefault(rel, {})[qual] = set(lines)
+    return _TARGETS
+
+
+def _make_tracer(k):
+    targets = _targets()
+    cache = {}
+    count = [0]
+
+    def glob(frame, event, arg):
+        code = frame.f_code
+        ls = cache.get(code, 0)
+        if ls == 0:
+            ls = None
+            fn = code.co_filename
+            for rel, quals in targets.items():
+                if fn.endswith(rel):
+                    ls = quals.get(code.co_qualname.replace('.<locals>', ''))
+                    break
+            cache[code] = ls
+        if ls is None:
+            return None
+        qual = code.co_qualname
+
+        def local(frame, event, arg):
+            if event == 'line' and frame.f_lineno in ls:
+                i = count[0]
+                count[0] += 1
+                ctx = []
+                f = frame.f_back
+                while f is not None:
+                    if cache.get(f.f_code):
+                        ctx.append(f.f_code.co_name)
+                    f = f.f_back
+                _EVENTS.append('%s:%d<%s' % (qual, frame.f_lineno, '<'.join(ctx)))
+                if i == k:
+                    raise InjectedFault()
+            return local
+        return local
+    return glob
+
+
+def injection_sites(name, base='none'):
+    """the injection points of scope `name` in the scenario `base` (a hand-written site, 'none' = healthy): the
+    statements with an opaque call, inside translated functions, that the run executes, in order"""
+    _INJECT[0] = -1
+    try:
+        run_scope(name, base)
+    finally:
+        _INJECT[0] = None
+    # one site per distinct (statement, chain of translated callers): its first occurrence
+    seen, out = set(), []
+    for k, lab in enumerate(_EVENTS):
+        if lab not in seen:
+            seen.add(lab)
+            out.append((k, lab))
+    return out
+
 
 
 def _see_request(request):
@@ -57,9 +133,16 @@ def _observe(fn):
     base = len(manager.stack)
     manager.stack.extend(sentinel)
     before = list(manager.stack)
+    import sys
+    del _EVENTS[:]
     try:
         try:
-            fn()
+            if _INJECT[0] is not None:
+                sys.settrace(_make_tracer(_INJECT[0]))
+            try:
+                fn()
+            finally:
+                sys.settrace(None)
             kind = 0
         except BaseException:
             kind = 1
@@ -93,6 +176,15 @@ def _rf(site):
 
 
 def run_scope(name, site):
+    if site.startswith('inj:'):
+        # a failure injected (through the interpreter's tracing hook, no source change) at the k-th executed
+        # statement that contains an opaque call, in the otherwise healthy scenario
+        k, _, base = site[4:].partition('@')
+        _INJECT[0] = int(k)
+        try:
+            return run_scope(name, base or 'none')
+        finally:
+            _INJECT[0] = None
     from pyramid import scripting
     from pyramid.request import Request
     from pyramid.response import Response
@@ -149,6 +241,8 @@ def run_scope(name, site):
             if site == 'action':
                 raise Boom()
         c.action(('c13', 1), act)
+        if site == 'conflict':
+            c.action(('c13', 1), lambda: None)
         return _observe(c.commit)
     if name == 'cfg_action':
         from pyramid.config import Configurator
@@ -158,7 +252,12 @@ def run_scope(name, site):
             _see_registry(c.registry)
             if site == 'callable':
                 raise Boom()
-        return _observe(lambda: c.action(('c13', 2), act))
+        class BadIntr:
+            def register(self, introspector, action_info):
+                _see_registry(c.registry)
+                raise Boom()
+        intrs = (BadIntr(),) if site == 'introspectable' else ()
+        return _observe(lambda: c.action(('c13', 2), act, introspectables=intrs))
     if name == 'cfg_include':
         c = _config()
 
@@ -179,6 +278,10 @@ def run_scope(name, site):
             if site == 'action':
                 raise Boom()
         c.action(('c13', 3), act)
+        if site == 'conflict':
+            c.action(('c13', 3), lambda: None)
+        if site == 'tween_factory':
+            c.add_tween('harness.c13.scopes.bad_tween_factory')     # raises while Router builds the tween chain
         return _observe(c.make_wsgi_app)
     if name == 'cfg_route_prefix':
         c = _config()
@@ -199,6 +302,8 @@ def run_scope(name, site):
                     if site == 'action':
                         raise Boom()
                 c.action(('c13', 4), act)
+                if site == 'conflict':
+                    c.action(('c13', 4), lambda: None)
                 _see_registry(c.registry)
                 if site == 'body':
                     raise Boom()
@@ -289,6 +394,10 @@ class _NoPred:
 
     def __call__(self, context, request):
         return False
+
+
+def bad_tween_factory(handler, registry):
+    raise Boom()
 
 
 def reraise_tween_factory(handler, registry):
